@@ -1,4 +1,6 @@
 import FormulaeModel.Spec.C17
+import FormulaeModel.Proofs.ShapeStack
+import FormulaeModel.Proofs.ShapeExamples
 /-
 C17 — the slice bookkeeping of `evaluate` and of `GroupEffectsMatrix.evaluate_new_data` (the same
 running start/delta computation, on possibly widened widths) satisfies the specification for
@@ -135,5 +137,350 @@ theorem C17_stack_rows (n : Nat) (parts : List (String × Matrix × Option (List
 -- non-vacuity
 example : slicesOk (slices [("Intercept", 1), ("f", 2), ("f:x", 3)] 0) ["Intercept", "f", "f:x"] 6 = true := by
   decide
+
+
+/-! ### design-level shape theorems: the evaluation model's own top-level functions
+
+All of them are named `_partial`: the guard on the caller's namespace (`Env.namesSized` /
+`Env.namesScalar`) excludes inputs the code accepts, and outside it the statements are false
+(`C17_trainComp_rows_counterexample`, `C17_design_rows_counterexample` at the end of this file).
+
+Hypotheses used below (all decidable, all explicit):
+* `env.frame.wellFormed`: the data frame is rectangular (every column has `nrows` cells);
+* `env.namesSized n`: every vector-like value bound in the caller's namespace has `n` entries
+  (`env.namesScalar`, "the namespace holds scalars / lists of levels / encodings only", implies it
+  for every `n`: `Env.namesSized_of_scalar`);
+* a term has at least one component (`spec.comps ≠ []`, `GroupSpec.nonempty`,
+  `Built.termsNonempty`): `reduceMatrices []` is the matrix without rows. -/
+
+open FormulaeModel.Pipeline in
+/-- `set_type` + `set_data` of one component (Variable or Call, any expression, any flags): one row
+per row of the data frame. -/
+theorem C17_trainComp_rows_partial (env : Env) (name : String) (e : Expr) (forced isResponse full : Bool)
+    (out : CompOut) (hwf : env.frame.wellFormed = true)
+    (hn : env.namesSized env.frame.nrows = true)
+    (h : trainComp env name e forced isResponse full = .ok out) :
+    out.value.length = env.frame.nrows :=
+  (trainComp_shape env hwf hn name e forced isResponse full out h).rows
+
+/-- `Term.set_data`: one row per row of the data frame. -/
+theorem C17_trainTerm_rows_partial (env : Env) (table : List (String × Expr)) (spec : TermSpec)
+    (forced isResponse : Bool) (out : TermOut) (hwf : env.frame.wellFormed = true)
+    (hn : env.namesSized env.frame.nrows = true) (hne : spec.comps ≠ [])
+    (h : trainTerm env table spec forced isResponse = .ok out) :
+    out.data.length = env.frame.nrows :=
+  (trainTerm_shape env hwf hn table spec forced isResponse out h).rows
+    (fun h0 => hne (List.length_eq_zero_iff.1 h0))
+
+/-- `GroupSpecificTerm.set_data`: one row per row of the data frame. -/
+theorem C17_trainGroup_rows_partial (env : Env) (table : List (String × Expr)) (spec : GroupSpec)
+    (out : GroupOut) (hwf : env.frame.wellFormed = true)
+    (hn : env.namesSized env.frame.nrows = true) (hne : spec.nonempty = true)
+    (h : trainGroup env table spec = .ok out) : out.data.length = env.frame.nrows :=
+  (trainGroup_shape env hwf hn table spec out h).rows hne
+
+/-- `Term.eval_new_data` of a trained term on ANY later rectangular frame (any unseen-level
+policy): one row per row of the new frame, and every row as wide as the training matrix. -/
+theorem C17_newTerm_shape_partial (env env' : Env) (table : List (String × Expr)) (spec : TermSpec)
+    (forced isResponse : Bool) (out : TermOut) (mode : UnseenMode) (m : Matrix) (w : Bool)
+    (hwf : env.frame.wellFormed = true) (hn : env.namesSized env.frame.nrows = true)
+    (hwf' : env'.frame.wellFormed = true) (hn' : env'.namesSized env'.frame.nrows = true)
+    (hne : spec.comps ≠ [])
+    (h : trainTerm env table spec forced isResponse = .ok out)
+    (h' : newTerm out.st env' mode = .ok (m, w)) :
+    m.length = env'.frame.nrows ∧
+      ∀ ls, out.labels = some ls → (∀ r ∈ m, r.length = ls.length) ∧ ∀ r ∈ out.data, r.length = ls.length := by
+  have hs := trainTerm_shape env hwf hn table spec forced isResponse out h
+  obtain ⟨h1, h2⟩ := newTerm_shape out.st hs.state env' hwf' hn' mode m w h'
+  refine ⟨h1 ?_, ?_⟩
+  · intro hnil
+    have := hs.ncomps
+    rw [hnil] at this
+    exact hne (List.length_eq_zero_iff.1 this.symm)
+  · intro ls hls
+    obtain ⟨a, b⟩ := hs.cols ls hls
+    exact ⟨by rw [b]; exact h2, a⟩
+
+/-- `GroupSpecificTerm.eval_new_data` on ANY later rectangular frame: one row per row of the new
+frame; the block is as wide as at training time when every new row belongs to a remembered group,
+and wider by exactly the width of the effect (`fl.length * el.length + el.length`) when a new
+group occurs (`ji` is the indicator matrix of the grouping factor on the new frame; a row of zeros
+is a row that matches no remembered group). -/
+theorem C17_newGroup_shape_partial (env env' : Env) (table : List (String × Expr)) (spec : GroupSpec)
+    (out : GroupOut) (mode : UnseenMode) (m : Matrix) (w : Bool)
+    (hwf : env.frame.wellFormed = true) (hn : env.namesSized env.frame.nrows = true)
+    (hwf' : env'.frame.wellFormed = true) (hn' : env'.namesSized env'.frame.nrows = true)
+    (hne : spec.nonempty = true)
+    (h : trainGroup env table spec = .ok out)
+    (h' : newGroup out.st env' mode = .ok (m, w)) :
+    m.length = env'.frame.nrows ∧
+    ∃ ji w2, newTerm out.st.factor env' mode = .ok (ji, w2) ∧
+      ∀ ls, out.labels = some ls →
+        (∀ r ∈ out.data, r.length = ls.length) ∧
+        (ji.any isZeroRow = false → ∀ r ∈ m, r.length = ls.length) ∧
+        (ji.any isZeroRow = true → ∀ r ∈ m, r.length = ls.length + out.st.effectWidth) := by
+  have hs := trainGroup_shape env hwf hn table spec out h
+  obtain ⟨h1, ji, w2, hji, ha, hb⟩ :=
+    newGroup_shape out.st hs.state (by rw [hs.nonempty]; exact hne) env' hwf' hn' mode m w h'
+  refine ⟨h1, ji, w2, hji, ?_⟩
+  intro ls hls
+  obtain ⟨c, d⟩ := hs.cols ls hls
+  refine ⟨c, ?_, ?_⟩
+  · intro hz; rw [d]; exact ha hz
+  · intro hz
+    have := hb hz
+    rw [Nat.add_mul, Nat.one_mul, ← d] at this
+    exact this
+
+open FormulaeModel.Pipeline in
+/-- The whole of `design_matrices`, for every formula, data frame, caller's namespace and
+`na_action`: the response, every common term and every group-specific term have one row per row
+of the frame left by the missing-value step, and that frame is rectangular. -/
+theorem C17_design_rows_partial (table : Parser.Table) (ops : Resolver.OpTable) (actions : List String)
+    (formula : String) (env : Env) (naAction : String) (built : Built)
+    (hwf : env.frame.wellFormed = true) (hn : env.namesScalar = true)
+    (h : designMatrices table ops actions formula env naAction = .ok built)
+    (hne : built.termsNonempty = true) :
+    built.frame.wellFormed = true ∧
+    (∀ out, built.response = some out → out.data.length = built.frame.nrows) ∧
+    (∀ p ∈ built.common, ∀ out, p.2 = some out → out.data.length = built.frame.nrows) ∧
+    (∀ g ∈ built.group, g.data.length = built.frame.nrows) := by
+  have hs := designMatrices_shape table ops actions formula env naAction built hwf hn h
+  simp only [Built.termsNonempty, Bool.and_eq_true, List.all_eq_true] at hne
+  refine ⟨hs.frame, ?_, ?_, ?_⟩
+  · intro out hout
+    obtain ⟨k, hk⟩ := hs.response out hout
+    apply hk.rows
+    intro h0
+    have h1 := hne.1
+    rw [hout] at h1
+    have := hk.ncomps
+    rw [h0] at this
+    simp [List.length_eq_zero_iff.1 this] at h1
+  · intro p hp out hout
+    obtain ⟨k, hk, ho⟩ := (hs.common p hp).2 out hout
+    exact ho.rows hk
+  · intro g hg
+    obtain ⟨ne, hgs⟩ := hs.group g hg
+    apply hgs.rows
+    rw [← hgs.nonempty]
+    exact hne.2 g hg
+
+open FormulaeModel.Pipeline in
+/-- The stacked common-effects matrix of a design (`CommonEffectsMatrix`, as the observer
+`Driver.C04.commonStack` builds it from what `design_matrices` returned): the per-term slices are
+contiguous, start at zero, follow the term order and end at the column count; there is one row per
+row of the frame left by the missing-value step; and every row has exactly that many columns. -/
+theorem C17_design_common_partial (table : Parser.Table) (ops : Resolver.OpTable) (actions : List String)
+    (formula : String) (env : Env) (naAction : String) (built : Built)
+    (hwf : env.frame.wellFormed = true) (hn : env.namesScalar = true)
+    (h : designMatrices table ops actions formula env naAction = .ok built) :
+    let s := Driver.C04.commonStack built.frame.nrows built.trained
+    let ncols := (built.commonParts.map (fun p => p.2.1.ncols)).sum
+    slicesOk s.slices (built.common.map (·.1)) ncols = true ∧
+    s.matrix.length = built.frame.nrows ∧
+    ∀ r ∈ s.matrix, r.length = ncols := by
+  have hs := designMatrices_shape table ops actions formula env naAction built hwf hn h
+  obtain ⟨hnames, hparts⟩ := built.commonParts_shape hs
+  simp only [Built.commonStack_eq]
+  refine ⟨?_, ?_, ?_⟩
+  · rw [← hnames]
+    exact C17_stack_slices _ _
+  · exact C17_stack_rows _ _ (fun p hp => (hparts p hp).1)
+  · apply C17_hstack_widths _ (built.commonParts.map (fun p => p.2.1.ncols)) _ (by simp)
+    intro i hi
+    simp only [List.length_map] at hi
+    simp only [List.getElem_map]
+    obtain ⟨a, ⟨w, b⟩, _⟩ := hparts _ (List.getElem_mem hi)
+    exact ⟨a, hasWidth_ncols _ w b⟩
+
+open FormulaeModel.Pipeline in
+/-- The same for the stacked group-effects matrix (`GroupEffectsMatrix`). -/
+theorem C17_design_group_partial (table : Parser.Table) (ops : Resolver.OpTable) (actions : List String)
+    (formula : String) (env : Env) (naAction : String) (built : Built)
+    (hwf : env.frame.wellFormed = true) (hn : env.namesScalar = true)
+    (h : designMatrices table ops actions formula env naAction = .ok built)
+    (hne : built.termsNonempty = true) :
+    let s := Driver.C04.groupStack built.frame.nrows built.trained
+    let ncols := (built.groupParts.map (fun p => p.2.1.ncols)).sum
+    slicesOk s.slices (built.group.map (·.st.name)) ncols = true ∧
+    s.matrix.length = built.frame.nrows ∧
+    ∀ r ∈ s.matrix, r.length = ncols := by
+  have hs := designMatrices_shape table ops actions formula env naAction built hwf hn h
+  obtain ⟨hnames, hparts⟩ := built.groupParts_shape hs hne
+  simp only [Built.groupStack_eq]
+  refine ⟨?_, ?_, ?_⟩
+  · rw [← hnames]
+    exact C17_stack_slices _ _
+  · exact C17_stack_rows _ _ (fun p hp => (hparts p hp).1)
+  · apply C17_hstack_widths _ (built.groupParts.map (fun p => p.2.1.ncols)) _ (by simp)
+    intro i hi
+    simp only [List.length_map] at hi
+    simp only [List.getElem_map]
+    obtain ⟨a, ⟨w, b⟩, _⟩ := hparts _ (List.getElem_mem hi)
+    exact ⟨a, hasWidth_ncols _ w b⟩
+
+open FormulaeModel.Pipeline in
+/-- `evaluate_new_data` on the blocks of a design, for ANY later rectangular frame and any policy
+for unseen levels: every common block has one row per row of the new frame and the training width;
+every group block has one row per row of the new frame and either the training width or — when a
+new group occurs — the training width plus the width of its effect. -/
+theorem C17_design_new_blocks_partial (table : Parser.Table) (ops : Resolver.OpTable) (actions : List String)
+    (formula : String) (env env' : Env) (naAction : String) (built : Built) (mode : UnseenMode)
+    (hwf : env.frame.wellFormed = true) (hn : env.namesScalar = true)
+    (hwf' : env'.frame.wellFormed = true) (hn' : env'.namesSized env'.frame.nrows = true)
+    (h : designMatrices table ops actions formula env naAction = .ok built)
+    (hne : built.termsNonempty = true) :
+    (∀ p ∈ built.common, ∀ out, p.2 = some out → ∀ m w, newTerm out.st env' mode = .ok (m, w) →
+      m.length = env'.frame.nrows ∧
+      ∀ ls, out.labels = some ls → (∀ r ∈ m, r.length = ls.length) ∧ ∀ r ∈ out.data, r.length = ls.length) ∧
+    (∀ g ∈ built.group, ∀ m w, newGroup g.st env' mode = .ok (m, w) →
+      m.length = env'.frame.nrows ∧
+      ∀ ls, g.labels = some ls → (∀ r ∈ g.data, r.length = ls.length) ∧
+        ((∀ r ∈ m, r.length = ls.length) ∨ (∀ r ∈ m, r.length = ls.length + g.st.effectWidth))) := by
+  have hs := designMatrices_shape table ops actions formula env naAction built hwf hn h
+  simp only [Built.termsNonempty, Bool.and_eq_true, List.all_eq_true] at hne
+  constructor
+  · intro p hp out hout m w hm
+    obtain ⟨k, hk, ho⟩ := (hs.common p hp).2 out hout
+    obtain ⟨h1, h2⟩ := newTerm_shape out.st ho.state env' hwf' hn' mode m w hm
+    refine ⟨h1 ?_, ?_⟩
+    · intro hnil
+      have := ho.ncomps
+      rw [hnil] at this
+      exact hk this.symm
+    · intro ls hls
+      obtain ⟨a, b⟩ := ho.cols ls hls
+      exact ⟨by rw [b]; exact h2, a⟩
+  · intro g hg m w hm
+    obtain ⟨ne, hgs⟩ := hs.group g hg
+    obtain ⟨h1, ji, w2, hji, ha, hb⟩ :=
+      newGroup_shape g.st hgs.state (hne.2 g hg) env' hwf' hn' mode m w hm
+    refine ⟨h1, ?_⟩
+    intro ls hls
+    obtain ⟨c, d⟩ := hgs.cols ls hls
+    refine ⟨c, ?_⟩
+    cases hz : ji.any isZeroRow with
+    | false => left; rw [d]; exact ha hz
+    | true =>
+      right
+      have := hb hz
+      rw [Nat.add_mul, Nat.one_mul, ← d] at this
+      exact this
+
+/-! ### non-vacuity of the design-level theorems: a concrete frame with a missing cell, a 3-level
+factor, a numeric column, a grouping column; a later frame in which a new group occurs -/
+
+open FormulaeModel.ShapeEx
+
+-- the hypotheses hold for the example environments
+example : exEnv.frame.wellFormed = true ∧ exEnv.namesSized exEnv.frame.nrows = true ∧
+    exEnv.namesScalar = true ∧ exEnvNA.frame.wellFormed = true ∧ exEnvNA.namesScalar = true ∧
+    exNew.frame.wellFormed = true ∧ exNew.namesSized exNew.frame.nrows = true ∧
+    exTermSpec.comps ≠ [] ∧ exGroupSpec.nonempty = true := by decide
+
+-- C17_trainComp_rows_partial: the call `C(f)` is evaluated and has the 4 rows of the frame
+example : (match trainComp exEnv "C(f)" (exCall1 "C" (exVar "f")) false false false with
+    | .ok o => o.value.length == 4 && o.labels == some ["C(f)[b]", "C(f)[c]"]
+    | .error _ => false) = true := by decide +kernel
+example (out : CompOut) (h : trainComp exEnv "C(f)" (exCall1 "C" (exVar "f")) false false false = .ok out) :
+    out.value.length = 4 := C17_trainComp_rows_partial exEnv _ _ _ _ _ out (by decide) (by decide) h
+
+-- C17_trainTerm_rows_partial: the interaction `C(f):x`
+example : (match trainTerm exEnv exTable exTermSpec false false with
+    | .ok o => o.data == [[some 0, some 0], [some 2, some 0], [some 0, some 4], [some 0, some 0]]
+    | .error _ => false) = true := by decide +kernel
+example (out : TermOut) (h : trainTerm exEnv exTable exTermSpec false false = .ok out) :
+    out.data.length = 4 := C17_trainTerm_rows_partial exEnv _ _ _ _ out (by decide) (by decide) (by decide) h
+
+-- C17_trainGroup_rows_partial: `(x | g)`
+example : (match trainGroup exEnv exTable exGroupSpec with
+    | .ok o => o.data == [[some 1, some 0], [some 0, some 2], [some 4, some 0], [some 0, some 5]]
+    | .error _ => false) = true := by decide +kernel
+example (out : GroupOut) (h : trainGroup exEnv exTable exGroupSpec = .ok out) :
+    out.data.length = 4 := C17_trainGroup_rows_partial exEnv _ _ out (by decide) (by decide) (by decide) h
+
+-- C17_newTerm_shape_partial: the trained interaction on the later frame: 2 rows, 2 columns
+example : (match trainTerm exEnv exTable exTermSpec false false with
+    | .ok o => (match newTerm o.st exNew .error with
+      | .ok (m, _) => m == [[some 7, some 0], [some 8, some 0]]
+      | .error _ => false)
+    | .error _ => false) = true := by decide +kernel
+
+-- C17_newGroup_shape_partial: the new group `zz` widens the block from 2 to 2 + 1 columns
+example : (match trainGroup exEnv exTable exGroupSpec with
+    | .ok o => (match newGroup o.st exNew .silent with
+      | .ok (m, _) => m == [[some 7, some 0, some 0], [some 0, some 0, some 8]] && o.st.effectWidth == 1
+      | .error _ => false)
+    | .error _ => false) = true := by decide +kernel
+
+-- C17_design_rows_partial / C17_design_common_partial / C17_design_group_partial / C17_design_new_blocks_partial: the whole
+-- pipeline on the frame with a missing cell: 3 retained rows, 3 common columns, 4 group columns
+-- (`(x|g)` stands for `(1|g) + (x|g)`)
+example : (match exDesign exEnvNA with
+    | .ok b => b.termsNonempty && b.frame.nrows == 3 && b.common.map (fun (p : String × Option TermOut) => p.1) == ["Intercept", "f", "x"]
+        && (Driver.C04.commonStack b.frame.nrows b.trained).slices
+            == [⟨"Intercept", 0, 1⟩, ⟨"f", 1, 2⟩, ⟨"x", 2, 3⟩]
+        && (Driver.C04.commonStack b.frame.nrows b.trained).matrix
+            == [[some 1, some 0, some 1], [some 1, some 1, some 4], [some 1, some 0, some 5]]
+        && (Driver.C04.groupStack b.frame.nrows b.trained).matrix
+            == [[some 1, some 0, some 1, some 0], [some 1, some 0, some 4, some 0],
+                [some 0, some 1, some 0, some 5]]
+    | .error _ => false) = true := by decide +kernel
+example (b : Pipeline.Built) (h : exDesign exEnvNA = .ok b) (hne : b.termsNonempty = true) :
+    ∀ g ∈ b.group, g.data.length = b.frame.nrows :=
+  (C17_design_rows_partial _ _ _ _ exEnvNA _ b (by decide) (by decide) h hne).2.2.2
+
+/-! ### why the theorems above are `_partial`: the guard on the caller's namespace excludes inputs
+the code accepts
+
+The unguarded statement ("one row per row of the data frame" for EVERY environment) is false of
+the model — and of the library, which the model mirrors here: a vector bound in the caller's
+namespace is used as it is, whatever its length (`LazyVariable.eval` falls back to the environment,
+nothing compares lengths; `np.column_stack` only complains when a second block disagrees).  With
+`z = np.array([1., 2.])` in the caller's namespace and a 4-row data frame,
+`design_matrices("y ~ 0 + I(z)", data)` returns a common matrix with 2 rows beside a response with
+4 rows.  The guard `Env.namesSized` (implied by `Env.namesScalar`, which is what the harness
+generates) excludes exactly this. -/
+
+/-- the row-count statement without the guard on the namespace -/
+def C17_trainComp_rows_Statement : Prop :=
+  ∀ (env : Env) (name : String) (e : Expr) (forced isResponse full : Bool) (out : CompOut),
+    env.frame.wellFormed = true →
+    trainComp env name e forced isResponse full = .ok out → out.value.length = env.frame.nrows
+
+/-- a 4-row frame, and a 2-entry vector `z` in the caller's namespace -/
+def exEnvZ : Env := { frame := exFrame, names := [("z", .vec [some 1, some 2] false)] }
+
+theorem C17_trainComp_rows_counterexample : ¬ C17_trainComp_rows_Statement := by
+  intro hS
+  have h : trainComp exEnvZ "I(z)" (exCall1 "I" (exVar "z")) false false false
+      = .ok ⟨{ name := "I(z)", expr := exCall1 "I" (exVar "z"), kind := .numeric, forced := false,
+               tstate := .node none [.leaf] }, [[some 1], [some 2]], some ["I(z)"]⟩ := by
+    rfl
+  have := hS exEnvZ _ _ _ _ _ _ (by decide) h
+  exact absurd this (by decide)
+
+/-- … and through the whole pipeline: `y ~ 0 + I(z)` gives a common block with 2 rows for a frame
+(and a response) with 4 rows -/
+theorem C17_design_rows_counterexample :
+    (match Pipeline.designMatrices Generated.parserTable Generated.resolverOps Generated.naActions
+        "y ~ 0 + I(z)" exEnvZ "drop" with
+     | .ok b => b.frame.nrows == 4 && b.termsNonempty
+         && b.response.map (fun (o : TermOut) => o.data.length) == some 4
+         && b.common.map (fun (p : String × Option TermOut) => p.2.map (fun (o : TermOut) => o.data.length))
+              == [some 2]
+     | .error _ => false) = true := by decide +kernel
+
+-- the counterexample is exactly outside the guard
+example : exEnvZ.frame.wellFormed = true ∧ exEnvZ.namesSized exEnvZ.frame.nrows = false := by decide
+
+/-- A term without components has no rows (`reduceMatrices []`): the guard `spec.comps ≠ []` of
+`C17_trainTerm_rows_partial` is needed in the model; a `Term` of the library always has at least
+one component, so this guard excludes no input of the code. -/
+theorem C17_trainTerm_rows_counterexample_empty :
+    (match trainTerm exEnv exTable ⟨"t", []⟩ false false with
+     | .ok o => o.data.length == 0 && exEnv.frame.nrows == 4
+     | .error _ => false) = true := by decide +kernel
 
 end FormulaeModel.C17
